@@ -3,6 +3,7 @@ from __future__ import annotations
 
 import io
 import os
+import itertools
 import operator
 import tempfile
 import warnings
@@ -257,8 +258,25 @@ def run_negative_functions(ctx, registry_f):
 
 def P(rng, **kw):
     kw.setdefault("kind", "int")
+    dtype = kw.pop("dtype", None)
     s = gen.gen_struct(rng, **kw)
+    if dtype:
+        # other coefficient dtypes: the spellings must agree on the result's dtype too (bool, narrow, float32)
+        s["dtype"] = dtype
+        for t in s["terms"]:
+            t[1] = [(int(x != 0) if dtype == "bool" else (abs(x) % 7 or 1)) if isinstance(x, int) else x for x in t[1]]
+            if dtype == "bool":
+                t[1][0] = 1
     return gen.materialize(s)
+
+
+_DT = itertools.cycle([(None, 2), ("bool", 1), ("uint8", 1), (None, 1), ("int16", 2), ("float32", 1), ("bool", 2)])
+
+
+def some_dtype(r):
+    """(dtype, number of stored terms), cycling so that every entry that uses it meets a lone-term polynomial of every
+    dtype in each tier"""
+    return next(_DT)
 
 
 def C(rng, shape, lo=1, hi=4, kind="int"):
@@ -289,6 +307,13 @@ def synthesisers():
              "isfinite": (None, None)}
     for nm, (meth, op) in unary.items():
         kind = "float" if nm in ("ceil", "floor", "rint") else "int"
+        if nm == "square":
+            # `poly ** 2` is rewritten by numpy into the ufunc numpy.square: one more spelling of square, and it must
+            # agree with power(poly, 2) and poly * poly
+            S[f"numpy.{nm}"] = simple(numpy.square, nm, lambda r: (lambda dn: ([P(r, nterms=dn[1], shape=gen.choice(r, [(), (2,), (3,)]), dtype=dn[0])], {}))(some_dtype(r)), None, None,
+                                      extra=[("poly ** 2", lambda a: a ** 2), ("numpy.power(poly, 2)", lambda a: numpy.power(a, 2)),
+                                             ("poly * poly", lambda a: a * a)])
+            continue
         S[f"numpy.{nm}"] = simple(getattr(numpy, nm), nm, lambda r, kind=kind: ([P(r, kind=kind)], {}), meth, op)
     for nm, meth in (("around", "round"), ("round", "round")):
         S[f"numpy.{nm}"] = simple(getattr(numpy, nm), nm, lambda r: ([P(r, kind="float")], {}), meth)
@@ -300,7 +325,7 @@ def synthesisers():
             a, b = catalogue.build(catalogue.pair(r, nterms=int(r.integers(0, 4)), kind="int"))
             return [a, b], {}
         S[f"numpy.{nm}"] = simple(getattr(numpy, nm), nm, mk, None, op)
-    S["numpy.power"] = simple(numpy.power, "power", lambda r: ([P(r, nterms=2), int(r.integers(0, 4))], {}), None, operator.pow)
+    S["numpy.power"] = simple(numpy.power, "power", lambda r: (lambda dn: ([P(r, nterms=dn[1], shape=gen.choice(r, [(), (2,), (3,)]), dtype=dn[0]), int(r.integers(0, 4))], {}))(some_dtype(r)), None, operator.pow)
     S["numpy.floor_divide"] = simple(numpy.floor_divide, "floor_divide", lambda r: ([numpoly.polynomial(C(r, sh(r), 1, 9)), int(r.integers(1, 4))], {}), None, operator.floordiv)
     S["numpy.divide"] = simple(numpy.divide, "divide", lambda r: ([numpoly.polynomial(C(r, sh(r), 1, 9, "float")), float(r.integers(1, 3))], {}))
     S["numpy.remainder"] = simple(numpy.remainder, "remainder", lambda r: ([numpoly.polynomial(C(r, sh(r), 1, 9)), int(r.integers(1, 4))], {}))
@@ -388,7 +413,7 @@ def run_positive(ctx, registry):
         if syn is None:
             missing.append(name)
             continue
-        for _ in range(reps):
+        for _ in range(reps * 7 if name in ("numpy.square", "numpy.power", "numpy.multiply") else reps):
             try:
                 spellings = syn(rng)
             except Exception as err:  # noqa: BLE001
